@@ -48,3 +48,22 @@ Print Assumptions C06_too_deep_is_error.
 Theorem C06_empty_rejected : forall re_ok ns, compile re_ok "" ns = Err "expr expression is nil".
 Proof. exact compile_empty. Qed.
 Print Assumptions C06_empty_rejected.
+
+(* ------------------------------------------------------------------ *)
+(* FOR EVERY TEXT (any byte string) and namespace map: Compile returns exactly one of a usable
+   query and an error; MustCompile returns that query or the nop query, never nil. *)
+From XP.Proofs Require Import EndToEndTotal.
+
+Theorem C06_text_exactly_one : forall re_ok text ns,
+  (exists q, compile re_ok text ns = Ok q /\ q <> QNil /\ qok q = true /\
+             forall msg, compile re_ok text ns <> Err msg) \/
+  (exists msg, compile re_ok text ns = Err msg /\ forall q, compile re_ok text ns <> Ok q).
+Proof. exact C06_text_compile_exactly_one. Qed.
+Print Assumptions C06_text_exactly_one.
+
+Theorem C06_text_must_compile_total : forall re_ok text,
+  ((exists q, compile re_ok text None = Ok q /\ must_compile re_ok text = q) \/
+   (exists msg, compile re_ok text None = Err msg /\ must_compile re_ok text = QNop)) /\
+  must_compile re_ok text <> QNil.
+Proof. exact C06_text_must_compile. Qed.
+Print Assumptions C06_text_must_compile_total.
